@@ -343,3 +343,94 @@ func (c *Ctx) enumTables(rule string, rels ...string) int {
 	}
 	return n
 }
+
+// nilContradictions (Engler's "checked here, dereferenced there"): a pointer that the function
+// itself compares with nil is dereferenced at a point where the comparison says it IS nil. Loads
+// of the same field with nothing in between that could write it are identified. Exact: the rule
+// reports only dereferences on paths where nil-ness is established by a dominating branch.
+func (c *Ctx) nilContradictions(rule string, rels ...string) int {
+	n := 0
+	for _, f := range c.moduleFuncs(rels...) {
+		canon := func(v ssa.Value) ssa.Value {
+			for i := 0; i < 4; i++ {
+				ld, ok := v.(*ssa.UnOp)
+				if !ok || ld.Op != token.MUL {
+					return v
+				}
+				e := earlierSameLoad(ld)
+				if e == nil {
+					return v
+				}
+				v = e
+			}
+			return v
+		}
+		// pointers compared with nil
+		tested := map[ssa.Value]bool{}
+		allInstrs(f, func(_ *ssa.BasicBlock, in ssa.Instruction) {
+			bo, ok := in.(*ssa.BinOp)
+			if !ok || (bo.Op != token.EQL && bo.Op != token.NEQ) {
+				return
+			}
+			for _, pr := range [][2]ssa.Value{{bo.X, bo.Y}, {bo.Y, bo.X}} {
+				if isNilConst(pr[1]) {
+					if _, isPtr := pr[0].Type().Underlying().(*types.Pointer); isPtr {
+						tested[canon(pr[0])] = true
+					}
+				}
+			}
+		})
+		if len(tested) == 0 {
+			continue
+		}
+		knownNil := func(b *ssa.BasicBlock, p ssa.Value) bool {
+			for _, ft := range factsAt(f, b) {
+				bo, ok := ft.Cond.(*ssa.BinOp)
+				if !ok || (bo.Op != token.EQL && bo.Op != token.NEQ) {
+					continue
+				}
+				for _, pr := range [][2]ssa.Value{{bo.X, bo.Y}, {bo.Y, bo.X}} {
+					if isNilConst(pr[1]) && canon(pr[0]) == p && (bo.Op == token.EQL) == ft.Truth {
+						return true
+					}
+				}
+			}
+			return false
+		}
+		ord := 0
+		allInstrs(f, func(b *ssa.BasicBlock, in ssa.Instruction) {
+			var p ssa.Value
+			switch x := in.(type) {
+			case *ssa.FieldAddr:
+				p = x.X
+			case *ssa.UnOp:
+				if x.Op == token.MUL {
+					p = x.X
+				}
+			case *ssa.Store:
+				p = x.Addr
+			}
+			if p == nil {
+				return
+			}
+			if _, isPtr := p.Type().Underlying().(*types.Pointer); !isPtr {
+				return
+			}
+			cp := canon(p)
+			if !tested[cp] {
+				return
+			}
+			n++
+			if knownNil(b, cp) {
+				ord++
+				key := fmt.Sprintf("%s: %s dereferenced where it is nil", fnName(f), shape(p, 2))
+				if ord > 1 {
+					key += fmt.Sprintf("#%d", ord)
+				}
+				c.bad(rule, key, in.Pos(), fmt.Sprintf("%s dereferences %s on a path where the function's own test has established that it is nil (inverted or wrongly combined nil test): the call panics", fnName(f), shape(p, 3)))
+			}
+		})
+	}
+	c.ok(rule, "no pointer is dereferenced where the function's own nil test says it is nil", token.NoPos, fmt.Sprintf("%d dereferences of nil-tested pointers examined in %v", n, rels))
+	return n
+}
